@@ -23,6 +23,43 @@ ASSUMPTIONS = ['to_hpke_key_pair is a deterministic key derivation: .0 is the pr
 PAIR_RX = r'PathSecret::to_hpke_key_pair\((.*)\)\.0\}$'
 
 
+def generator_condition(fq):
+    def f(P_):
+        """the path-secret generator advances only for non-filtered nodes of the direct path (RFC 9420 7.4 / 12.4.3.1):
+        committer (encap) and joiner (update_secrets) must agree on this, or they derive different keys above a filtered node"""
+        r = Res()
+        fn = P_.fn(fq)
+        body = P_.body(fn)
+        gx = GuardExtractor(body)
+        ns = [bi for bi, t in body.calls_named(r'PathSecretGenerator::next_secret$')]
+        if not ns:
+            return r.bad('call-missing', '`%s` no longer derives path secrets with the generator' % fq)
+        sides = []
+        for bi, b in enumerate(body.B):
+            t = b['term']
+            if t['k'] == 'switch' and t['d']['k'] in ('copy', 'move') and not t['d']['pl']['p'] and body.fn['locals'][t['d']['pl']['l']]['ty'] == 'bool':
+                rel = gx.cond_of_local(t['d']['pl']['l'])
+                if rel[0] in ('truth', 'not') and re.search(r'^(Not::not\()?Iterator::next\(.*NodeVec::filtered\(.*\)\.1\.1\)?$', rel[1]):
+                    v, tgt = t['ts'][0]
+                    false_t, true_t = (tgt, t['o']) if v == '0' else (t['o'], tgt)
+                    neg = rel[1].startswith('Not::not(') != (rel[0] == 'not')
+                    sides.append((false_t if neg else true_t, true_t if neg else false_t, b['ln'], bi))
+        if not sides:
+            return r.bad('branch-missing', '`%s` no longer branches on the filtered flag of the direct-path node' % fq)
+        for filtered_side, unfiltered_side, ln, sb in sides:
+            for c in ns:
+                # only generator steps inside the loop over the direct path (they can reach the branch again)
+                if sb not in body.reach([c]):
+                    continue
+                r.site('%s @%s next_secret' % (fq, body.ln(c)))
+                if not body.dominates(unfiltered_side, c):
+                    r.bad('advance-on-filtered', 'in `%s` the path-secret generator is advanced at %s outside the not-filtered branch (%s): a filtered '
+                          'node consumes a path secret, so this side derives different keys than the other side above it' % (fq, body.ln(c), ln),
+                          where=[body.ln(c), ln])
+        return r
+    return f
+
+
 def run(ctx):
     P = ctx.P
     cfg = ctx.config
@@ -122,6 +159,8 @@ def run(ctx):
     ctx.check('PAIR-INTEGRITY', 'decap: key stored only after the public-key match', guarded_store('TreeKem::decap', r'public_key'), floor=1)
     ctx.check('PAIR-INTEGRITY', 'welcome: key stored only after the public-key match',
               guarded_store('TreeKemPrivate::update_secrets', r'PubKeyMismatch|public_key|borrow_node'), floor=1)
+    ctx.check('SIBLING', 'committer advances the path-secret generator only for unfiltered nodes', generator_condition('TreeKem::encap'), floor=1)
+    ctx.check('SIBLING', 'joiner advances the path-secret generator only for unfiltered nodes', generator_condition('TreeKemPrivate::update_secrets'), floor=1)
     PP = 'Group::provisional_private_tree'
 
     def blank_none(P_):
